@@ -404,7 +404,9 @@ pub fn handle_violations(
         let path = write_replay(&minimised);
         let mut path = path;
         if !confirmed {
-            // (a) the minimiser may have lost what the violation depends on: try the original
+            // (a) the minimiser may have lost what the violation depends on (or, with state that
+            // depends on the process history, found a different class): try the original
+            let class = v.get("class").and_then(|c| c.as_str()).unwrap_or("").to_string();
             let mut original = v.clone();
             let opath = write_replay(&original);
             let (ocode, ostdout) = replay_in_fresh_process(exe, &opath);
